@@ -6,6 +6,7 @@ import FrappyProofs.Lemmas.DatainfoSnap
 import FrappyProofs.Lemmas.CommandInfo
 import FrappyProofs.Lemmas.Variants
 import FrappyProofs.Lemmas.CompatRefl
+import FrappyProofs.Lemmas.History
 import FrappyModel.Generated.C03
 /-
 C03 — property theorems (nothing but property theorems, table facts and non-vacuity examples).
@@ -390,6 +391,112 @@ theorem writable_same_datatype_ok (a : CType F) (ha : a.WF) (hal : GridAligned a
     exact compatible_refl _ (erase_wf a ha) hal
   simp only [writableCheck, this, passes, if_true]
 
+/-! ## histories on one datatype object: the description is the one of the datatype as it is now -/
+
+open Frappy.Lemmas.C03History in
+/-- `set_main_unit` (the `'$'` of every unit replaced, at any depth) changes no behaviour: `validate`, `import_value`
+and `__call__` are the same functions before and after -/
+theorem set_main_unit_same_behaviour (u : String) (dt : DInfo F) :
+    (∀ v prev, validate (setMainUnit u dt).erase v prev = validate dt.erase v prev) ∧
+    (∀ w, importValue (setMainUnit u dt).erase w = importValue dt.erase w) ∧
+    (∀ v, call (setMainUnit u dt).erase v = call dt.erase v) := by
+  rw [setMainUnit_erase]
+  exact ⟨fun _ _ => rfl, fun _ => rfl, fun _ => rfl⟩
+
+open Frappy.Lemmas.C03History in
+/-- whatever was asked for and changed before (descriptions of the object or of its members, the main unit, properties
+of any member — set on the member itself or through the arrays above it): the description the object gives at the
+end of a history is the description of the object as it is at the end, and asking did not change the object -/
+theorem history_description_current (D : Consts F) (t t' : DInfo F) (steps : List (Step F))
+    (outs : List (Except Err (JVal F))) (h : run D t (steps ++ [.export []]) = .ok (t', outs)) :
+    outs.getLast? = some (exportDatatype D t') ∧ ∃ outs0, run D t steps = .ok (t', outs0) := by
+  obtain ⟨outs0, h1, h2⟩ := run_snoc_export D steps t t' outs h
+  exact ⟨by rw [h2]; simp, outs0, h1⟩
+
+/-- hence the first clause of the property at the end of any history that leaves a well-formed object with grid-aligned
+scaled limits (what `checkProperties` and the datatypes of the properties enforce — a hypothesis here, `DInfo.WF` is
+not proved to be kept by `setProps`): the type rebuilt from the description given THEN exports the identical datainfo
+and validates / imports exactly like the object as it is then -/
+theorem history_rebuild_equiv (D : Consts F) (hD : D.OK) (t t' : DInfo F) (steps : List (Step F))
+    (outs : List (Except Err (JVal F))) (h : run D t (steps ++ [.export []]) = .ok (t', outs))
+    (hwf : t'.WF D) (hex : t'.Exportable) :
+    ∃ j dt', outs.getLast? = some (.ok j) ∧ getDatatype D j = .ok dt' ∧ exportDatatype D dt' = .ok j ∧
+      (∀ v prev, validate dt'.erase v prev = validate t'.erase v prev) ∧
+      (∀ w, importValue dt'.erase w = importValue t'.erase w) := by
+  obtain ⟨j, dt', h1, h2, h3, h4, h5⟩ := rebuild_equiv D hD t' hwf hex
+  exact ⟨j, dt', by rw [(history_description_current D t t' steps outs h).1, h1], h2, h3, h4, h5⟩
+
+/-- … and a copy made then is the object as it is then -/
+theorem history_copy_equiv (D : Consts F) (hD : D.OK) (t t' : DInfo F) (steps : List (Step F))
+    (outs : List (Except Err (JVal F))) (_h : run D t steps = .ok (t', outs)) (hwf : t'.WF D) (hex : t'.Exportable) :
+    copy D t' = .ok t' :=
+  copy_core D hD constsOK2 t' hwf hex
+
+/-! ## the proxy check: the verdict in the direction in which the values flow -/
+
+open Frappy.Lemmas.C03History in
+/-- which way round `_check_descriptive_data` asks `compatible()` follows from the flags of the PROXY's own parameter:
+for a writable one no 'incompatible' warning means the check proxy → remote passed, no warning about the datatypes at
+all means the check remote → proxy passed as well; for a read-only one the only check is remote → proxy, and the
+`readonly` flag of the remote parameter plays no role -/
+theorem proxy_direction (pname : String) (exported readonly : Bool) (dt : CType F) (r : RemoteParam F) :
+    (readonly = false → ProxyWarning.incompatible ∉ proxyParam pname exported readonly dt (some r) →
+      compatibleC dt r.datatype = .ok ()) ∧
+    (ProxyWarning.incompatible ∉ proxyParam pname exported readonly dt (some r) →
+      ProxyWarning.notFully ∉ proxyParam pname exported readonly dt (some r) → compatibleC r.datatype dt = .ok ()) ∧
+    (readonly = true → proxyParam pname exported readonly dt (some r) =
+      if passes (compatibleC r.datatype dt) then [] else [.incompatible]) := by
+  refine ⟨?_, ?_, ?_⟩
+  · intro hro hno
+    subst hro
+    rw [← passes_iff]
+    cases hp : passes (compatibleC dt r.datatype) with
+    | true => rfl
+    | false => exact absurd (by simp [proxyParam, hp]) hno
+  · intro hno hnf
+    rw [← passes_iff]
+    cases hq : passes (compatibleC r.datatype dt) with
+    | true => rfl
+    | false =>
+      cases readonly with
+      | true => exact absurd (by simp [proxyParam, hq]) hno
+      | false =>
+        cases hp : passes (compatibleC dt r.datatype) with
+        | true => exact absurd (by simp [proxyParam, hp, hq]) hnf
+        | false => exact absurd (by simp [proxyParam, hp]) hno
+  · intro hro
+    subst hro
+    simp [proxyParam]
+
+/-- the use of the verdict, full statement: a parameter the proxy may write and about which no 'incompatible' warning is
+logged takes remotely every value valid on the proxy; a parameter about whose datatype nothing is logged takes on the
+proxy every value valid remotely -/
+def proxy_flow_sound_statement (F : Type) [FloatOps F] : Prop :=
+  ∀ (pname : String) (exported readonly : Bool) (dt : CType F) (r : RemoteParam F),
+    dt.WF → r.datatype.WF → GridAligned dt.erase → GridAligned r.datatype.erase →
+    (readonly = false → ProxyWarning.incompatible ∉ proxyParam pname exported readonly dt (some r) →
+      ∀ v, InSetC dt v → ∃ x, cvalidate r.datatype v none = .ok x) ∧
+    (ProxyWarning.incompatible ∉ proxyParam pname exported readonly dt (some r) →
+      ProxyWarning.notFully ∉ proxyParam pname exported readonly dt (some r) →
+      ∀ v, InSetC r.datatype v → ∃ x, cvalidate dt v none = .ok x)
+
+/-- proved part: with the side conditions of `compatibleC_sound_partial` on the pair in the direction concerned (the
+recorded findings of `compatible()` itself excluded: all-optional struct against a mandatory member, a
+`relative_resolution` not below 1, a `LimitsType` in the type checked against — for the writing direction the remote
+type is rebuilt from a description and never holds one) -/
+theorem proxy_flow_sound_partial (pname : String) (exported readonly : Bool) (dt : CType F) (r : RemoteParam F)
+    (hdt : dt.WF) (hr : r.datatype.WF) (hal : GridAligned dt.erase) (hrl : GridAligned r.datatype.erase) :
+    (readonly = false → ProxyWarning.incompatible ∉ proxyParam pname exported readonly dt (some r) →
+      ResLeOne r.datatype.erase → OptionalRespected dt.erase r.datatype.erase → r.datatype.limitsFree = true →
+      ∀ v, InSetC dt v → ∃ x, cvalidate r.datatype v none = .ok x) ∧
+    (ProxyWarning.incompatible ∉ proxyParam pname exported readonly dt (some r) →
+      ProxyWarning.notFully ∉ proxyParam pname exported readonly dt (some r) →
+      ResLeOne dt.erase → OptionalRespected r.datatype.erase dt.erase → dt.limitsFree = true →
+      ∀ v, InSetC r.datatype v → ∃ x, cvalidate dt v none = .ok x) := by
+  obtain ⟨h1, h2, _⟩ := proxy_direction pname exported readonly dt r
+  exact ⟨fun hro hno hres hopt hlim => compatibleC_sound_partial dt r.datatype hdt hr hal hrl hres hopt hlim (h1 hro hno),
+    fun hno hnf hres hopt hlim => compatibleC_sound_partial r.datatype dt hr hdt hrl hal hres hopt hlim (h2 hno hnf)⟩
+
 /-! ## commands -/
 
 /-- a passing `compatOpt`: both `None`, or both datatypes with a passing check -/
@@ -606,6 +713,50 @@ example : (∀ t, (⟨some (.int 1 2), some .bool⟩ : CmdInfo Rat).argument = s
       simp [DInfo.WF, DType.WF, DType.intLimit, DInfo.Exportable]
   · intro t h
     rcases h with h | h <;> cases h
+
+/-- a history that meets the hypotheses of `history_description_current` / `history_rebuild_equiv` / `history_copy_equiv`:
+`dt = ArrayOf(IntRange(0, 10), 1, 3)`; `dt.export_datatype()`; `dt.set_properties(max=5)` (handed to the member by
+`ArrayOf.setProperty`); `dt.members.set_properties(min=2)`; `dt.export_datatype()` — the object at the end is
+`ArrayOf(IntRange(2, 5), 1, 3)` and two descriptions were given -/
+example : (match run (⟨0, 0, 1⟩ : Consts Rat) (.array (.int 0 10) 1 3)
+      ([.export [], .setProps [] [("max", .int 5)], .setProps [0] [("min", .int 2)]] ++ [.export []]) with
+    | .ok (.array (.int a b) 1 3, outs) => (a, b, outs.length)
+    | _ => (0, 0, 0)) = (2, 5, 2) ∧
+    (DInfo.array (.int 2 5) 1 3 : DInfo Rat).WF ⟨0, 0, 1⟩ ∧ (DInfo.array (.int 2 5) 1 3 : DInfo Rat).Exportable :=
+  ⟨by decide +kernel, by simp [DInfo.WF, DType.WF, DType.intLimit], by simp [DInfo.Exportable]⟩
+
+/-- `set_main_unit` on a struct reaches the member of an array inside it (`'$/s'` becomes `'K/s'`), an inverted pair of
+limits is refused (`ProgrammingError`) -/
+example : (match run (⟨0, 0, 1⟩ : Consts Rat)
+      (.struct [("curve", .array (.double 0 10 0 0 "$/s" "%g") 0 5), ("n", .int 0 3)] [] false)
+      [.export [], .mainUnit [] "K", .export [0]] with
+    | .ok (.struct [(_, .array (.double _ _ _ _ u _) _ _), _] _ _, outs) => (u, outs.length)
+    | _ => ("", 0)) = ("K/s", 2) ∧
+    (match run (⟨0, 0, 1⟩ : Consts Rat) (.int 0 3) [.setProps [] [("min", .int 7)]] with
+    | .error e => some e
+    | .ok _ => none) = some progErr :=
+  ⟨by decide +kernel, by decide +kernel⟩
+
+/-- the cases of `proxy_direction` occur: a parameter writable on the proxy and wider than the read-only remote one is
+reported ('is read only' and 'incompatible'), the same pair with a read-only parameter on the proxy is accepted silently
+(every remote value is valid on the proxy), and a proxy parameter narrower than the remote one is 'not fully compatible'
+when writable and 'incompatible' when read only -/
+example :
+    proxyParam "gain" true false (.leaf (.int 0 100) : CType Rat) (some ⟨.leaf (.int 0 10), true⟩) = [.readOnly, .incompatible] ∧
+    proxyParam "gain" true true (.leaf (.int 0 100) : CType Rat) (some ⟨.leaf (.int 0 10), false⟩) = [] ∧
+    proxyParam "level" true false (.leaf (.int 0 3) : CType Rat) (some ⟨.leaf (.int 0 7), false⟩) = [.notFully] ∧
+    proxyParam "level" true true (.leaf (.int 0 3) : CType Rat) (some ⟨.leaf (.int 0 7), false⟩) = [.incompatible] :=
+  ⟨by decide +kernel, by decide +kernel, by decide +kernel, by decide +kernel⟩
+
+/-- the hypotheses of `proxy_flow_sound_partial` are met by a quiet writable parameter: `IntRange(0, 10)` on both sides -/
+example : (CType.leaf (.int 0 10) : CType Rat).WF ∧ GridAligned (CType.leaf (.int 0 10) : CType Rat).erase ∧
+    ResLeOne (CType.leaf (.int 0 10) : CType Rat).erase ∧ (CType.leaf (.int 0 10) : CType Rat).limitsFree = true ∧
+    OptionalRespected (CType.leaf (.int 0 10) : CType Rat).erase (CType.leaf (.int 0 10) : CType Rat).erase ∧
+    proxyParam "p" true false (.leaf (.int 0 10) : CType Rat) (some ⟨.leaf (.int 0 10), false⟩) = [] ∧
+    InSetC (CType.leaf (.int 0 10) : CType Rat) (.int 4) :=
+  ⟨by simp [CType.WF, DType.WF, DType.isLeafKind, DType.intLimit], by simp [CType.erase, GridAligned],
+    by simp [CType.erase, ResLeOne], by decide, by simp [CType.erase, OptionalRespected], by decide +kernel,
+    by simp [InSetC, InSet, InSetG, CType.erase, OrderedIn]⟩
 
 /-- … and `compatible_complete` applies to a container pair with nested members -/
 example : ∃ (a b : DType Rat), a.WF ∧ b.WF ∧ GridAligned a ∧ GridAligned b ∧ Nested a b :=
